@@ -1,6 +1,6 @@
 """C01 — routing: a record reaches exactly the appenders of its logger chain.
 case: ( (appname ...) (rootlevel (appname ...)) ((name level additive (appname ...)) ...)
-        ((target level) ...) )
+        ((target level) ...) (failing-appender-index ...) )
 result: per probe the appender indices whose append was called."""
 import itertools
 
@@ -11,13 +11,16 @@ RULE = ("structured sweep: every subset of <= 3 logger names from a pool of 12 n
         "up to 12 loggers, depth <= 6, ASCII and multi-byte components, up to 4 appenders.  Every config is "
         "probed with every logger name, its parent, a child, the textual sibling (name+'x', name minus a "
         "byte), and stray-colon targets ('', ':', '::', 'a:', 'a:::b', '::a', 'a::', ...) at all 5 levels. "
+        "In about half of the cases a random non-empty subset of the appenders returns Err after recording "
+        "the call (fault injection: deliveries must be unaffected). "
         "non-trivial = config with >= 1 logger and a probe whose effective logger is not the root; "
         "distinct = distinct case line")
 ASSUMPTIONS = ["configs are built through Config::builder().build (valid: unique names accepted by "
                "check_logger_name, all appender references resolve)",
                "delivery order among the appenders of one record is not constrained by the property and "
                "is canonicalised (multiset comparison); the Coq theorem fixes the order as well",
-               "appender filters/errors are C03's subject: every appender here has no filter and succeeds"]
+               "appender filters are C03's subject: no appender here has a filter; failing appenders record the "
+               "call and return Err (the error-handler calls themselves are C03's subject)"]
 EXHAUSTIVE = {"quick": False, "thorough": False}
 
 POOL = ["a", "b", "ab", "a::a", "a::b", "a::ab", "ab::a", "a::b::a", "a::b::ab", "a::a::b", "::a", "::a::b"]
@@ -57,7 +60,10 @@ def probes_for(names, rng, extra=()):
 
 
 def mk_case(apps, root, loggers, rng, extra=()):
-    return [list(apps), root, loggers, probes_for([l[0] for l in loggers], rng, extra)]
+    failing = []
+    if apps and rng.chance(1, 2):
+        failing = [i for i in range(len(apps)) if rng.chance(1, 2)] or [rng.below(len(apps))]
+    return [list(apps), root, loggers, probes_for([l[0] for l in loggers], rng, extra), failing]
 
 
 def rand_attach(rng, apps, maxn=3):
@@ -145,7 +151,7 @@ def classify(c):
 def describe(c):
     return {"appenders": c[0], "root": {"level": c[1][0], "appenders": c[1][1]},
             "loggers": [{"name": l[0], "level": l[1], "additive": bool(l[2]), "appenders": l[3]} for l in c[2]],
-            "probes": len(c[3])}
+            "probes": len(c[3]), "failing_appenders": c[4] if len(c) > 4 else []}
 
 
 def compare(c, impl, model):
